@@ -76,7 +76,8 @@ def betaBinary1(therm : BinaryThermodynamics, x, T, Rcrit, matrix : MatrixParame
 
     beta = fa * Rcrit^2 * x * D / a**4
     '''
-    x = np.atleast_1d(x)
+    #Binary compositions can come in as (N,1) (ex. from computeSteadyStateNucleation)
+    x = np.atleast_1d(np.squeeze(x))
     T = np.atleast_1d(T)
     Rcrit = np.atleast_1d(Rcrit)
     indices = Rcrit != 0
